@@ -24,26 +24,29 @@ type v08Gen struct {
 	ops    []v07Op
 	msgSeq int
 	pool   int
+	nSess  int
 	seen   map[int]bool
 	// statistics of the generated destination sequence
 	deniedAfterAllowed int
 	sawAllowed         bool
 	batch              int
+	sessUsed           map[int]bool
 }
 
-func (g *v08Gen) datagram(dest int) {
+func (g *v08Gen) datagram(s, dest int) {
 	if !g.cfg.deny[dest] {
 		g.sawAllowed = true
 	} else if g.sawAllowed {
 		g.deniedAfterAllowed++
 	}
 	g.seen[dest] = true
+	g.sessUsed[s] = true
 	size := rapid.IntRange(8, 40).Draw(g.rt, "dgSize")
 	if rapid.IntRange(0, 19).Draw(g.rt, "fragmented") == 0 {
 		// two fragments, the policy applies to the reassembled datagram
 		cut := rapid.IntRange(1, size-1).Draw(g.rt, "cut")
 		order := rapid.Bool().Draw(g.rt, "swap")
-		a := v07Op{kind: v07OpData, s: 0, dest: dest, msgSeq: g.msgSeq, total: size, lo: 0, hi: cut, pid: uint16(g.msgSeq%65000) + 1, fragID: 0, fragCount: 2, noWait: true}
+		a := v07Op{kind: v07OpData, s: s, dest: dest, msgSeq: g.msgSeq, total: size, lo: 0, hi: cut, pid: uint16(g.msgSeq%65000) + 1, fragID: 0, fragCount: 2, noWait: true}
 		b := a
 		b.lo, b.hi, b.fragID = cut, size, 1
 		if order {
@@ -51,7 +54,7 @@ func (g *v08Gen) datagram(dest int) {
 		}
 		g.ops = append(g.ops, a, b)
 	} else {
-		g.ops = append(g.ops, v07Op{kind: v07OpData, s: 0, dest: dest, msgSeq: g.msgSeq, total: size, lo: 0, hi: size, fragCount: 1, noWait: true})
+		g.ops = append(g.ops, v07Op{kind: v07OpData, s: s, dest: dest, msgSeq: g.msgSeq, total: size, lo: 0, hi: size, fragCount: 1, noWait: true})
 	}
 	g.msgSeq++
 	g.batch++
@@ -65,6 +68,13 @@ func (g *v08Gen) sync() {
 	g.batch = 0
 }
 
+func (g *v08Gen) sess() int {
+	if g.nSess == 1 {
+		return 0
+	}
+	return rapid.IntRange(0, g.nSess-1).Draw(g.rt, "session")
+}
+
 func (g *v08Gen) pick(denied bool) int {
 	var c []int
 	for d := 0; d < g.pool; d++ {
@@ -76,18 +86,33 @@ func (g *v08Gen) pick(denied bool) int {
 }
 
 func v08GenCase(rt *rapid.T) (v07Cfg, []v07Op, *v08Gen) {
-	g := &v08Gen{rt: rt, seen: map[int]bool{}}
+	g := &v08Gen{rt: rt, seen: map[int]bool{}, sessUsed: map[int]bool{}}
 	mode := rapid.IntRange(0, 3).Draw(rt, "mode") // 0 small pool, 1 alternate, 2 overflow the decision cache, 3 overflow + repeats after eviction
 	switch mode {
 	case 0, 1:
 		g.pool = rapid.IntRange(2, 12).Draw(rt, "pool")
+		g.nSess = rapid.IntRange(1, 3).Draw(rt, "sessions")
 	default:
 		g.pool = rapid.IntRange(258, 400).Draw(rt, "pool")
+		g.nSess = rapid.SampledFrom([]int{1, 1, 1, 2}).Draw(rt, "sessions")
 	}
-	g.cfg = v07Cfg{idle: 10 * time.Second, limit: rapid.SampledFrom([]int{1200, 64}).Draw(rt, "datagramLimit"),
-		sids: []uint32{rapid.SampledFrom(v07SidPool).Draw(rt, "sessionID")}, randSeed: rapid.Int64().Draw(rt, "randSeed")}
-	if rapid.IntRange(0, 3).Draw(rt, "hook") == 0 {
-		g.cfg.hookMode = 1
+	// all sessions of the connection use the same destination strings (shared = true)
+	g.cfg = v07Cfg{idle: 10 * time.Second, limit: rapid.SampledFrom([]int{1200, 64}).Draw(rt, "datagramLimit"), shared: true,
+		sids:     rapid.SliceOfNDistinct(rapid.SampledFrom(v07SidPool), g.nSess, g.nSess, rapid.ID[uint32]).Draw(rt, "sessionIDs"),
+		randSeed: rapid.Int64().Draw(rt, "randSeed")}
+	if g.nSess == 1 {
+		if rapid.IntRange(0, 3).Draw(rt, "hook") == 0 {
+			g.cfg.hookMode = 1
+		}
+	} else {
+		g.cfg.hookMode = rapid.SampledFrom([]int{0, 2, 2, 2, 1}).Draw(rt, "hookMode") // 2: only odd session indexes are rewritten
+	}
+	// the policy may also reject the address the hook rewrites a session to
+	g.cfg.denyRewrite = make([]bool, g.nSess)
+	for s := range g.cfg.denyRewrite {
+		if g.cfg.hookRewrites(s) {
+			g.cfg.denyRewrite[s] = rapid.IntRange(0, 3).Draw(rt, "rewriteTargetDenied") == 0
+		}
 	}
 	// policy: arbitrary deny-set with at least one allowed and one denied destination
 	pct := rapid.SampledFrom([]int{5, 20, 50, 80}).Draw(rt, "denyPercent")
@@ -96,33 +121,30 @@ func v08GenCase(rt *rapid.T) (v07Cfg, []v07Op, *v08Gen) {
 		g.cfg.deny[d] = rapid.IntRange(0, 99).Draw(rt, "deny") < pct
 	}
 	g.cfg.deny[rapid.IntRange(0, g.pool-1).Draw(rt, "forceDenied")] = true
-	for {
-		d := rapid.IntRange(0, g.pool-1).Draw(rt, "forceAllowed")
-		if g.cfg.deny[d] {
-			g.cfg.deny[d] = false
-			n := 0
-			for _, x := range g.cfg.deny {
-				if x {
-					n++
-				}
-			}
-			if n == 0 {
-				g.cfg.deny[(d+1)%g.pool] = true
+	if d := rapid.IntRange(0, g.pool-1).Draw(rt, "forceAllowed"); g.cfg.deny[d] {
+		g.cfg.deny[d] = false
+		n := 0
+		for _, x := range g.cfg.deny {
+			if x {
+				n++
 			}
 		}
-		break
+		if n == 0 {
+			g.cfg.deny[(d+1)%g.pool] = true
+		}
 	}
-	// first destination: allowed or denied
+	// first destination of the first session: allowed or denied
 	firstDenied := rapid.Bool().Draw(rt, "firstDenied")
-	g.datagram(g.pick(firstDenied))
+	s0 := g.sess()
+	g.datagram(s0, g.pick(firstDenied))
 	if firstDenied && rapid.Bool().Draw(rt, "firstDeniedTwice") {
-		g.datagram(g.pick(true))
+		g.datagram(s0, g.pick(true))
 	}
 	switch mode {
 	case 0:
 		n := rapid.IntRange(3, 60).Draw(rt, "n")
 		for i := 0; i < n; i++ {
-			g.datagram(rapid.IntRange(0, g.pool-1).Draw(rt, "dest"))
+			g.datagram(g.sess(), rapid.IntRange(0, g.pool-1).Draw(rt, "dest"))
 		}
 	case 1:
 		n := rapid.IntRange(3, 30).Draw(rt, "n")
@@ -130,50 +152,54 @@ func v08GenCase(rt *rapid.T) (v07Cfg, []v07Op, *v08Gen) {
 		for i := 0; i < n; i++ {
 			switch rapid.IntRange(0, 3).Draw(rt, "alt") {
 			case 0:
-				g.datagram(a)
+				g.datagram(g.sess(), a)
 			case 1:
-				g.datagram(d)
+				g.datagram(g.sess(), d)
 			case 2:
-				g.datagram(g.pick(false))
+				g.datagram(g.sess(), g.pick(false))
 			default:
-				g.datagram(g.pick(true))
+				g.datagram(g.sess(), g.pick(true))
 			}
 		}
 	default:
-		// walk over more distinct destinations than the decision cache holds, then come back
+		// one session walks over more distinct destinations than the decision cache holds, then comes back
 		start := rapid.IntRange(0, g.pool-1).Draw(rt, "start")
 		n := rapid.IntRange(257, g.pool).Draw(rt, "distinct")
+		other := (s0 + 1) % g.nSess
 		for i := 0; i < n; i++ {
-			g.datagram((start + i) % g.pool)
+			g.datagram(s0, (start+i)%g.pool)
 			if mode == 3 && rapid.IntRange(0, 15).Draw(rt, "interleaveDenied") == 0 {
-				g.datagram(g.pick(true))
+				g.datagram(s0, g.pick(true))
+			}
+			if other != s0 && rapid.IntRange(0, 30).Draw(rt, "otherSession") == 0 {
+				g.datagram(other, rapid.IntRange(0, g.pool-1).Draw(rt, "dest"))
 			}
 		}
 		m := rapid.IntRange(5, 80).Draw(rt, "after")
 		for i := 0; i < m; i++ {
 			switch rapid.IntRange(0, 3).Draw(rt, "afterKind") {
 			case 0:
-				g.datagram(g.pick(true))
+				g.datagram(s0, g.pick(true))
 			case 1:
-				g.datagram((start + rapid.IntRange(0, 20).Draw(rt, "early")) % g.pool) // used >= 256 destinations ago
+				g.datagram(s0, (start+rapid.IntRange(0, 20).Draw(rt, "early"))%g.pool) // used >= 256 destinations ago
 			case 2:
-				g.datagram(g.pick(false))
+				g.datagram(g.sess(), g.pick(false))
 			default:
-				g.datagram(rapid.IntRange(0, g.pool-1).Draw(rt, "dest"))
+				g.datagram(g.sess(), rapid.IntRange(0, g.pool-1).Draw(rt, "dest"))
 			}
 		}
 	}
 	g.sync()
 	// replies: with a hook rewrite they must be reported from the original address
 	for i, n := 0, rapid.IntRange(0, 3).Draw(rt, "replies"); i < n; i++ {
-		g.ops = append(g.ops, v07Op{kind: v07OpReply, s: 0, dest: rapid.IntRange(0, g.pool-1).Draw(rt, "from"), size: rapid.IntRange(8, 300).Draw(rt, "replySize")})
+		g.ops = append(g.ops, v07Op{kind: v07OpReply, s: g.sess(), dest: rapid.IntRange(0, g.pool-1).Draw(rt, "from"), size: rapid.IntRange(8, 300).Draw(rt, "replySize")})
 	}
-	// sometimes let the session expire and start again with another first destination
+	// sometimes let the sessions expire and start again with other first destinations
 	if rapid.IntRange(0, 3).Draw(rt, "restart") == 0 {
 		g.ops = append(g.ops, v07Op{kind: v07OpAdvance, dur: g.cfg.idle + time.Second + time.Millisecond})
 		n := rapid.IntRange(1, 20).Draw(rt, "n2")
 		for i := 0; i < n; i++ {
-			g.datagram(rapid.IntRange(0, g.pool-1).Draw(rt, "dest"))
+			g.datagram(g.sess(), rapid.IntRange(0, g.pool-1).Draw(rt, "dest"))
 		}
 		g.sync()
 	}
@@ -192,10 +218,26 @@ func TestVerifC08_Policy(t *testing.T) {
 			maxCache = len(g.seen)
 		}
 		var cls []string
-		if cfg.hookMode != 0 {
-			cls = append(cls, "hook-rewrite")
-		} else {
+		rewritten, rewrittenDenied := false, false
+		for s := range cfg.sids {
+			if g.sessUsed[s] && cfg.hookRewrites(s) {
+				rewritten = true
+				rewrittenDenied = rewrittenDenied || cfg.denyRewrite[s]
+			}
+		}
+		switch {
+		case cfg.hookMode == 0:
 			cls = append(cls, "hook-off")
+		case cfg.hookMode == 2:
+			cls = append(cls, "hook-rewrites-some-sessions")
+		default:
+			cls = append(cls, "hook-rewrites-all-sessions")
+		}
+		if rewrittenDenied {
+			cls = append(cls, "rewrite-target-denied")
+		}
+		if len(g.sessUsed) >= 2 {
+			cls = append(cls, "sessions>=2")
 		}
 		if len(g.seen) > 256 {
 			cls = append(cls, "distinct>256")
@@ -222,19 +264,19 @@ func TestVerifC08_Policy(t *testing.T) {
 				cls = append(cls, "session-restarted")
 			}
 		}
-		nt := g.deniedAfterAllowed > 0 && (len(g.seen) > 256 || cfg.hookMode != 0)
+		nt := g.deniedAfterAllowed > 0 && (len(g.seen) > 256 || rewritten)
 		var fp strings.Builder
-		fmt.Fprintf(&fp, "%d/%d|", cfg.hookMode, len(cfg.deny))
+		fmt.Fprintf(&fp, "%d/%d/%v|", cfg.hookMode, len(cfg.deny), cfg.denyRewrite)
 		for _, o := range ops {
 			if o.kind == v07OpData {
-				fmt.Fprintf(&fp, "%d%v,", o.dest, cfg.deny[o.dest])
+				fmt.Fprintf(&fp, "%d.%d%v,", o.s, o.dest, cfg.deny[o.dest])
 			}
 		}
 		st.Case(nt, fp.String(), cls, func() string {
 			var l []string
 			for i, o := range ops {
 				if o.kind == v07OpData && i < 40 {
-					l = append(l, fmt.Sprintf("d%d:%s", o.dest, map[bool]string{true: "deny", false: "allow"}[cfg.deny[o.dest]]))
+					l = append(l, fmt.Sprintf("s%d>d%d:%s", o.s, o.dest, map[bool]string{true: "deny", false: "allow"}[cfg.deny[o.dest]]))
 				}
 			}
 			return fmt.Sprintf("%v distinct=%d datagrams=%d: %s ...", cfg, len(g.seen), g.msgSeq, strings.Join(l, " "))
@@ -289,6 +331,35 @@ func TestVerifC08_Scripted(t *testing.T) {
 			if hook == 0 && name != "cache-overflow" && (res.m.nForwarded != want[0] || res.m.nDenied != want[1]) {
 				t.Fatalf("C08 scripted %q: harness expectation off: forwarded=%d denied=%d want %v%s", name, res.m.nForwarded, res.m.nDenied, want, res.render(cfg, h))
 			}
+		}
+	}
+	// several sessions on one connection using the same destination strings; the hook rewrites only the odd one
+	dgs := func(s, seq, dest int) v07Op {
+		o := dg(seq, dest)
+		o.s = s
+		return o
+	}
+	deny := make([]bool, 4)
+	deny[1] = true
+	for name, sc := range map[string]struct {
+		cfg          v07Cfg
+		ops          []v07Op
+		fwd, refused int
+	}{
+		// session index 1 is rewritten: its denied original address d1 must not become "allowed" for session index 0
+		"hooked-session-then-unhooked-to-its-original": {v07Cfg{idle: 10 * time.Second, limit: 1200, hookMode: 2, deny: deny, sids: []uint32{77, 78}, shared: true, denyRewrite: []bool{false, false}, randSeed: 1},
+			[]v07Op{dgs(1, 0, 1), dgs(1, 1, 1), dgs(0, 2, 0), dgs(0, 3, 1), dgs(0, 4, 0), dgs(1, 5, 2), {kind: v07OpSync}}, 5, 1},
+		// the hook rewrites to an address the policy rejects: nothing may be forwarded, the original is not a fallback
+		"rewrite-target-denied": {v07Cfg{idle: 10 * time.Second, limit: 1200, hookMode: 1, deny: deny, sids: []uint32{5}, shared: true, denyRewrite: []bool{true}, randSeed: 1},
+			[]v07Op{dgs(0, 0, 0), dgs(0, 1, 0), dgs(0, 2, 2), dgs(0, 3, 1), {kind: v07OpSync}}, 0, 0},
+	} {
+		res, h := v07RunCase(t, sc.cfg, sc.ops)
+		st.Case(true, name, []string{name}, func() string { return name })
+		if res.violation != "" {
+			t.Fatalf("C08 scripted %q: %s%s", name, res.violation, res.render(sc.cfg, h))
+		}
+		if res.m.nForwarded != sc.fwd || res.m.nDenied != sc.refused {
+			t.Fatalf("C08 scripted %q: harness expectation off: forwarded=%d refused=%d want %d/%d%s", name, res.m.nForwarded, res.m.nDenied, sc.fwd, sc.refused, res.render(sc.cfg, h))
 		}
 	}
 }
